@@ -104,11 +104,49 @@ Print Assumptions C17_wiring.
 (* ---- tie to the source: the eight recording operations of AggregatedStats (src/stats/aggregated.rs)
    as translated on this run: any event sequence through the translated add_* methods leaves the
    counters the model's aggregated recorder has ---- *)
-Require RV.Model.GenSupport RV.Gen.Code RV.Proofs.CodeStats.
+Require RV.Model.GenSupport RV.Gen.Code RV.Proofs.CodeStats RV.Proofs.CodePerClient.
 Theorem C17_translated_aggregated_is_model :
   forall evs c, RV.Proofs.CodeStats.gen_agg_run c evs = Ok (fold_left agg_step evs c).
 Proof. exact RV.Proofs.CodeStats.gen_agg_run_model. Qed.
 Print Assumptions C17_translated_aggregated_is_model.
+
+(* the eight recording operations of src/stats/per_client.rs and their guard too_many_entries, as
+   translated on this run (the guard through the translated helper, `entry(addr).or_insert_with_key(new)`
+   as a place inside the map): each is pc_step — the bounded map of C17_bounded / C17_conservation —
+   and a whole history through them is pc_run *)
+Theorem C17_translated_per_client_is_model :
+  forall clients ov mx e,
+  RV.Proofs.CodePerClient.gen_pc_record clients ov mx e
+  = Ok (let st := fst (pc_step (mkpc clients ov (N.to_nat mx)) e) in (pc_clients st, pc_overflows st)).
+Proof. exact RV.Proofs.CodePerClient.gen_pc_record_model. Qed.
+Print Assumptions C17_translated_per_client_is_model.
+
+Theorem C17_translated_per_client_history_is_model :
+  forall evs clients ov mx,
+  RV.Proofs.CodePerClient.gen_pc_run clients ov mx evs
+  = Ok (let st := fst (pc_run (mkpc clients ov (N.to_nat mx)) evs) in (pc_clients st, pc_overflows st)).
+Proof. exact RV.Proofs.CodePerClient.gen_pc_run_model. Qed.
+Print Assumptions C17_translated_per_client_history_is_model.
+
+(* Server::send_client_stats (the statistics tick) as translated from src/server.rs: the recorder's
+   per-client records go to the shared queue and the recorder is cleared only when there is at least
+   one record; the aggregated recorder (no records) is left alone; this is the publishing step of the
+   queue model of C17_queue_conservation *)
+Theorem C17_translated_tick_is_model :
+  forall rec q ev,
+  RV.Gen.Code.gen_send_client_stats rec q ev
+  = (let '(rec', q', o) := send_client_stats rec q in
+     Ok (rec', q', ev ++ match o with Some x => [x] | None => [] end)).
+Proof. exact RV.Proofs.CodeStats.gen_send_client_stats_model. Qed.
+Print Assumptions C17_translated_tick_is_model.
+
+Theorem C17_tick_is_the_queue_models_push :
+  forall q m lost x r,
+  q_run q m lost (QPush x :: r)
+  = (let '(_, q', o) := send_client_stats x q in
+     q_run q' m (lost ++ match o with Some y => [y] | None => [] end) r).
+Proof. exact RV.Proofs.CodeStats.q_run_push_is_send_client_stats. Qed.
+Print Assumptions C17_tick_is_the_queue_models_push.
 
 (* ---- tie to the source: the integer literals of the functions this property's model stands for
    (private constants, bounds, unit factors; the files are SiteMap.files_C17) are today the ones the
